@@ -173,6 +173,35 @@ def junk_declaration(rng, first=None):
     return head + " " + soup(rng, 2, True, allow_at=False, brace_top=True) + rng.choice(["", " y:2", " ! y:2", " {a} y:2"])
 
 
+NAMES = ["color", "top", "margin", "x", "-moz-y", "background"]
+NAME_JUNK = ["@x", "@x@y", "@page-break", "@media", "@import", "3", '"s"', "'q;}{'", "(a)", "[a;b]", "f(a)", "#h", ",", "=", ".",
+             "*", "bar", "!", "/", "{a}", "{;}", "url(u)", "4px", "5%", "U+0-7F", "~=", "+", ">", "-->", "<!--", "@x bar",
+             "@x :", "/*c*/ @y"]
+BAD_PRIO = [" !", " ! imp", " !important x", " !important @x", " !@x important", " !important !important",
+            " ! important important", " !important 3"]
+
+
+def junk_named_declaration(rng, x=None, sep=None):
+    """IDENT-starting malformed declaration: <name> [S|comment] <a token that cannot be part of a property name> ':' value.
+    It is routed to the `ident` handler and must be rejected by the Property name parser as a whole."""
+    name = rng.choice(NAMES)
+    x = x if x is not None else rng.choice(NAME_JUNK)
+    sep = sep if sep is not None else rng.choice(["", " ", "/**/", " /*c;}*/ "])
+    if sep == "" and (x[0].isalnum() or x[0] in "-_(\\"):
+        sep = " "
+    val = rng.choice(["blue", "1px", "f(2) g", '"v"', "url(w)"])
+    return name + sep + x + rng.choice(["", " "]) + ": " + val + rng.choice(["", " !important"])
+
+
+def junk_priority_declaration(rng, tail=None):
+    """well-formed name and value, malformed !priority part"""
+    return rng.choice(NAMES) + ": " + rng.choice(["blue", "1px", "f(2) g"]) + (tail if tail is not None else rng.choice(BAD_PRIO))
+
+
+# well-formed at-rule heads followed by a token after their expected end
+AT_VALID = ['@import "a.css"', "@import url(a.css) print", '@namespace p "u"', '@namespace "d"']
+AT_TRAIL = [" @x", "@x", " /*c*/ @x", " @x y", " @x@y", " foo", " 3", " (a)"]
+
 # ------------------------------------------------------------------ implementation side (workers)
 def _tok(text, fs=True):
     from css_parser.tokenize2 import Tokenizer
@@ -393,6 +422,14 @@ def _props(text):
     return [(p.name, p.value, p.priority) for p in st.getProperties(all=True)]
 
 
+def _style_props(text):
+    import css_parser
+    import logging
+    css_parser.log.setLevel(logging.FATAL)
+    st = css_parser.parseStyle(text, validate=False)
+    return [(p.name, p.value, p.priority) for p in st.getProperties(all=True)]
+
+
 def _sig_tokens(text):
     """token values without whitespace; strings and urls by content (the serializer normalises the quotes)"""
     from css_parser.util import Base
@@ -446,6 +483,14 @@ def oracle(case):
             without = _rules(pre + " @media print{" + g1 + " " + g2 + "}")
         elif k == "decl":
             with_, without = _props("a{" + g1 + ";" + junk + ";" + g2 + "}"), _props("a{" + g1 + ";" + g2 + "}")
+            if with_ == without:          # the other entry points of the declaration parser
+                w2 = _style_props(g1 + ";" + junk + ";" + g2), _style_props(g1 + ";" + g2)
+                w3 = (_model("@media tv{p{left:0} a{" + g1 + ";" + junk + ";" + g2 + "} q{top:0}}"),
+                      _model("@media tv{p{left:0} a{" + g1 + ";" + g2 + "} q{top:0}}"))
+                if w2[0] != w2[1]:
+                    with_, without = w2
+                elif w3[0] != w3[1]:
+                    with_, without = w3
         elif k == "unknown":
             import css_parser
             sh = css_parser.parseString(g1 + " " + junk + " " + g2, validate=False)
@@ -498,6 +543,12 @@ def oracle(case):
     if k in ("top", "media") and first.startswith(EMPTY_KEEPERS) and \
             kept_container(case, wrap(g1 + " " + junk + " " + g2), wrap(g1 + " " + g2)):
         return ("malformed @media/@page/@font-face/@variables statement is kept as an empty rule object", json.dumps(case, sort_keys=True))
+    if k == "decl" and case.get("cls") == "prio":
+        name, val = junk.split(":", 1)[0].strip(), junk.split(":", 1)[1].split("!")[0].strip()
+        extra = [q for q in with_ if q not in without]
+        if len(with_) == len(without) + 1 and len(extra) >= 1 and all(q[0] == name for q in extra):
+            return ("a declaration with a malformed !priority is kept (the priority is dropped or taken as written)",
+                    json.dumps(case, sort_keys=True))
     where = {"top": "top-level", "media": "@media-level", "decl": "declaration-level"}[k]
     return ("%s junk is not skipped as a unit: with junk %r, without %r" % (where, with_, without),
             json.dumps(case, sort_keys=True))
@@ -512,6 +563,23 @@ def gen_triples(rng, n):
     for f in ["3", "4px", '"s"', "'q;}{'", "#h", "url(u)", ":", ",", ".", "=", "!", "/", "$", "(", "[", "{", "f(", "rgb(",
               "U+0-7F", "~=", "!important", "foo", "foo bar:", "-->", "5%", "*", "&"]:
         cases.append({"kind": "decl", "g1": "x:1", "junk": junk_declaration(rng, f), "g2": "z:3"})
+    # junk declarations that START like a declaration: a foreign token between the name and the colon (every kind of
+    # token x every separator), and a malformed !priority
+    for x in NAME_JUNK:
+        for sep in ("", " ", "/**/"):
+            cases.append({"kind": "decl", "g1": "color:red", "junk": junk_named_declaration(rng, x, sep), "g2": "top:0"})
+    for t in BAD_PRIO:
+        cases.append({"kind": "decl", "cls": "prio", "g1": "x:1", "junk": junk_priority_declaration(rng, t), "g2": "z:3"})
+    for h in AT_VALID:
+        for t in AT_TRAIL:
+            cases.append({"kind": "order", "g1": '@import "i.css";', "junk": h + t + ";", "g2": "a{x:1}"})
+    for _ in range(n // 5):
+        r = rng.random()
+        g1, g2 = rng.choice(GOODDECL + ["color:red"]), rng.choice(GOODDECL + ["top:0"])
+        if r < 0.8:
+            cases.append({"kind": "decl", "g1": g1, "junk": junk_named_declaration(rng), "g2": g2})
+        else:
+            cases.append({"kind": "decl", "cls": "prio", "g1": g1, "junk": junk_priority_declaration(rng), "g2": g2})
     for _ in range(n):
         r = rng.random()
         if r < 0.3:
@@ -757,7 +825,7 @@ def replay(ctx, path):
     rep = json.loads(open(path).read())
     bad = 0
     for v in rep.get("violations", []):
-        w = {k: v["witness"][k] for k in ("kind", "g1", "junk", "g2", "pre", "level") if k in v["witness"]}
+        w = {k: v["witness"][k] for k in ("kind", "g1", "junk", "g2", "pre", "level", "cls") if k in v["witness"]}
         r = oracle(w)
         print("replay %s -> %s" % (json.dumps(w), r[0] if r else "holds"))
         bad += bool(r)
